@@ -100,6 +100,9 @@ def cases(rng, tier):
     return out
 
 
+RECLISTS = ('norms', 'exps', 'eighs', 'expms', 'lanczos', 'arnoldi', 'warns')
+
+
 def _afunc(case, A):
     """the matrix-free map: usually x -> A x; for the identity / exchange matrix also as a map returning its argument / a view"""
     return {'identity-alias': (lambda x: x), 'reverse-view': (lambda x: x[::-1])}.get(case.get('afunc'), lambda x: A @ x)
@@ -112,12 +115,27 @@ def impl(case):
         with KC.Recorder() as rec:
             rec.patch_iterations()
             try:
+                # a second call of the same routine on another vector of the same length follows before the first result is read:
+                # results of successive calls must not share storage (recorded norms etc. of the second call are dropped below)
+                v2 = np.asarray(v)[::-1] * (2.0 - 0.5j) + 1.0
                 if case['kind'] == 'eigh':
                     w, u = kr.eigh_krylov(_afunc(case, A), v, case['m'], case['numeig'])
+                    snap = {nm: len(getattr(rec, nm)) for nm in RECLISTS}
+                    try:
+                        kr.eigh_krylov(_afunc(case, A), v2, case['m'], case['numeig'])
+                    except Exception:
+                        pass
                     r = {'w': [float(x) for x in w], 'u': KC.c2j(np.asarray(u).T), 'ushape': list(np.shape(u)), 'wshape': list(np.shape(w))}
                 else:
                     x = kr.expm_krylov(_afunc(case, A), v, complex(*case['dt']), case['m'], hermitian=case['hermitian'])
+                    snap = {nm: len(getattr(rec, nm)) for nm in RECLISTS}
+                    try:
+                        kr.expm_krylov(_afunc(case, A), v2, complex(*case['dt']), case['m'], hermitian=case['hermitian'])
+                    except Exception:
+                        pass
                     r = {'x': KC.c2j(x), 'xshape': list(np.shape(x))}
+                for nm in RECLISTS:
+                    del getattr(rec, nm)[snap[nm]:]
             finally:
                 kr.lanczos_iteration, kr.arnoldi_iteration = rec._saved['lanczos_iteration'], rec._saved['arnoldi_iteration']
     except Exception as e:
